@@ -8,7 +8,9 @@ ID = "C10"
 LEAN_MODULES = ["Properties.C10"]
 THEOREMS = ["EngineModel.Properties.C10." + t for t in [
     "C10_observe_state", "C10_reopen_idle", "C10_history_settles", "C10_reopen_observes", "C10_open_transaction_is_lost",
-    "C10_reload", "C10_load_reports_created", "C10_create_or_load", "C10_create_or_load_logic",
+    "C10_reload", "C10_load_reports_created", "C10_create_or_load_iff", "C10_create_or_load_existing",
+    "C10_create_or_load_both_layouts", "C10_create_or_load_creates", "C10_create_or_load_creation_fails",
+    "C10_dir_load_reports_created", "C10_load_exists_keep_directory", "C10_create_or_load_old_counterexample",
     "C10_durable_is_visible", "C10_reopen_invisible", "C10_every_prefix", "C10_atomic_calls_settle", "C10_api_model",
     "C10_api_model_reopen", "C10_crates_v1", "C10_crates_v2", "C10_tracks_v2"]]
 ASSUMPTIONS = [
@@ -394,9 +396,18 @@ def tie(ctx):
             divergences.append({"input": "%s | %s" % (c["schema"], line[:80]), "impl": "statement kinds %s, autocommit %s" % (kinds[:60], auto),
                                 "model": "the call does not settle (scope left open): C10_reopen_observes no longer applies"})
     # ---- load reports the created schema (all 18, both tiers) + create_or_load on the presence combinations
-    reload_scripts = [["create %s disk" % s, "closeall", "load", "exists"] for s in G.SCHEMAS]
+    reload_scripts = [["create %s disk" % s, "closeall", "load", "exists", "closeall", "c16.list"] for s in G.SCHEMAS]
     ro = runner.run_harness(reload_scripts)
     rm = runner.run_model_script(["c10.reload " + s for s in G.SCHEMAS])
+    # the layout create_database chooses (m.db + p.db | Database2/m.db) for every version vs the directory model's
+    # createsDb2 (Spec/Dir.lean): the files the real creator leaves behind
+    lm = runner.run_model_script(["dir.layout " + s for s in G.SCHEMAS])
+    layouts = {}
+    for s, (o, _), m in zip(G.SCHEMAS, ro, lm):
+        got = G.shape_of_listing(o[5][3:]) if o[5].startswith("ok ") else o[5][:40]
+        layouts[got] = layouts.get(got, 0) + 1
+        if "ok " + got != m:
+            divergences.append({"input": "dir.layout %s (files written by create_database)" % s, "impl": got, "model": m})
     for s, sc, (o, _), m in zip(G.SCHEMAS, reload_scripts, ro, rm):
         if o[2] != "ok " + s:
             violations.append(mk_violation(s, sc, "schema-differs", "load_database", "created as %s, load_database answers '%s'" % (s, o[2][:60])))
@@ -445,13 +456,55 @@ def tie(ctx):
             if m != o[3]:
                 divergences.append({"input": ml, "impl": o[3][:80], "model": m[:80]})
         distinct.add(("col",) + cb)
+    # ---- create_or_load_database on EVERY directory shape (harness c16.probe, fresh copy, applied twice):
+    # oracle judge_col_probe (creates exactly when no library exists; an existing one is never written over) and
+    # the directory model (Lean, Spec/Dir.lean: C10_create_or_load_iff / _existing / _creates / _creation_fails)
+    col_entries = ["engine.create_or_load_database(1.x)", "engine.create_or_load_database(2.x)", "engine.create_or_load_database(3-arg)"]
+    pairs = [(v1s[-1 - (ctx.seed % 2)], v2s[-1])] + ([(v1s[0], v2s[0]), (rng.choice(v1s[1:-1]), rng.choice(v2s[1:-1]))] if thorough else [])
+    pscripts, pmeta = [], []
+    for s1, s2 in pairs:
+        for sh in G.DIR_SHAPES:
+            pscripts.append(["c16.probe %s %s %s %s" % (sh, en, s1, s2) for en in col_entries])
+            pmeta.append((sh, s1, s2))
+    po = runner.run_harness(pscripts, watchdog=30)
+    pm = runner.run_model_script([l.replace("c16.probe", "dir.run") for sc in pscripts for l in sc])
+    pmi = iter(pm)
+    col_shapes = {"created": 0, "loaded": 0, "throws": 0, "model_agrees": 0}
+    badp = {}
+    for (sh, s1, s2), sc, (o, _) in zip(pmeta, pscripts, po):
+        for en, line, x in zip(col_entries, sc, o):
+            mo_ = next(pmi)
+            d = G.parse_probe(x)
+            if d is None:
+                divergences.append({"input": line, "impl": x[:100], "model": "the probe answers"})
+                continue
+            cls = G.answer_class(d["a1"], detail=False)
+            col_shapes["created" if cls == "created" else "loaded" if cls == "loaded" else "throws"] += 1
+            for tag, text in judge_col_probe(sh, en, d):
+                badp.setdefault((en, tag), []).append((sh, line, text))
+            mm = re.match(r"ok a1=(\S+) a2=(\S+) after=(\S+)$", mo_)
+            third = en.endswith("(3-arg)")
+            nrm = (lambda a: "loaded" if third and a.startswith("loaded") else a)
+            impl = (nrm(G.answer_class(d["a1"])), nrm(G.answer_class(d["a2"])), G.shape_of_listing(d["l1"]))
+            model = (nrm(mm.group(1)), nrm(mm.group(2)), mm.group(3)) if mm else None
+            if impl != model:
+                divergences.append({"input": line.replace("c16.probe", "dir.run"), "impl": "a1=%s a2=%s after=%s" % impl, "model": mo_[:120]})
+            else:
+                col_shapes["model_agrees"] += 1
+            distinct.add(("colshape", sh, en, s1, s2))
+    for (en, tag), lst in sorted(badp.items()):
+        sh, line, text = lst[0]
+        hit = sorted({x[0] for x in lst})
+        violations.append({"tag": tag, "signature": {"family": "dir", "op": en, "effect": tag, "shapes": ",".join(hit)},
+                           "header": {"kind": "script", "what": "%s (%d directory shapes: %s)" % (text[:300], len(hit), ",".join(hit)[:120])},
+                           "body": [line, "# verdict: %s" % text, "# all shapes showing it: %s" % ",".join(hit)]})
     seen, vout = set(), []
     for v in violations:
         k = (v["signature"]["family"], v["signature"]["op"], v["signature"]["effect"])
         if k not in seen:
             seen.add(k)
             vout.append(v)
-    evaluations = sum(prefix_checked.values()) + len(G.SCHEMAS) + len(combos)
+    evaluations = sum(prefix_checked.values()) + len(G.SCHEMAS) + len(combos) + sum(len(sc) for sc in pscripts)
     return {
         "ok": not divergences and not vout,
         "evaluations": evaluations,
@@ -461,7 +514,9 @@ def tie(ctx):
                 "distinct (presence, schemas, request); non-trivial = the full observation was obtained on both sides",
         "samples": [jobs[0][3][:12] + ["..."], cscripts[0]],
         "histograms": {
-            "schemas": schemas, "histories": len(cases), "corpus": corpus_res, "history_operations": hist_ops, "calls_that_threw": rejected,
+            "schemas": schemas, "histories": len(cases), "corpus": corpus_res,
+            "create_database_layouts(all versions)": layouts,
+            "create_or_load_on_directory_shapes": dict(col_shapes, shapes=len(G.DIR_SHAPES), schema_pairs=["%s+%s" % p_ for p_ in pairs]), "history_operations": hist_ops, "calls_that_threw": rejected,
             "mutating_operations_covered(family x op)": len(covered), "mutating_operations_uncovered": uncovered,
             "prefixes_closed_and_loaded": prefix_checked,
             "raw_dump_equal_after_load": raw_eq, "raw_dump_differs_after_load(not an alarm)": raw_ne,
